@@ -49,4 +49,9 @@ THEOREMS = [
     ("DastardV.Lemmas.Pipe1", "DastardV.Trig.cut_exact"),
     ("DastardV.Lemmas.Pipe1", "DastardV.Trig.append_rep"),
     ("DastardV.Lemmas.Pipe1", "DastardV.Trig.trim_rep"),
+    ("DastardV.Lemmas.ComposeExcerpt", "DastardV.Compose.foldl_deliver_chanStream"),
+    ("DastardV.Lemmas.ComposeExcerpt", "DastardV.Compose.chanRecs_excerpts"),
+    ("DastardV.Lemmas.ComposeExcerpt", "DastardV.Compose.contig_of_opsOK"),
+    ("DastardV.Lemmas.ComposeExcerpt", "DastardV.Compose.file_samples_are_stream_excerpts"),
+    ("DastardV.Lemmas.ComposeExcerpt", "DastardV.Compose.file_samples_are_stream_excerpts_of_blocks"),
 ]
